@@ -1371,6 +1371,7 @@ pub fn execute(case: &str) -> String {
         },
         Some(k) if k.starts_with("pair.") => run_pair(&k[5..], &mut c),
         Some(k) if k.starts_with("gen.") => run_gen(&k[4..], &mut c),
+        Some(k) if k.starts_with("stk.") => x::run_stk(&k[4..], &mut c),
         _ => None,
     };
     r.unwrap_or_else(|| "bad-case".into())
